@@ -494,7 +494,7 @@ impl Case for LoopScn {
         // The variant is a deterministic function of the run's PRNG stream so
         // that one seed still decides everything.
         let faults = rng.chance(1, 3);
-        match prop {
+        let mut s = match prop {
             Prop::C01 => gen_c01(rng, tier, true),
             Prop::C02 => gen_c02(rng, tier),
             Prop::C03 => gen_c03(rng, tier),
@@ -510,7 +510,15 @@ impl Case for LoopScn {
             }
             Prop::C19 => gen_c19(rng, tier),
             _ => LoopScn::default(),
+        };
+        // A quarter of the runs of the schedule-sensitive families follow an
+        // earlier benchmark on the same thread pool (one pool reused by
+        // consecutive benchmarks with different thread counts, as in a real
+        // run).
+        if matches!(prop, Prop::C01 | Prop::C02 | Prop::C03 | Prop::C08) && rng.chance(1, 4) {
+            s.prelude_threads = rng.range(1, 5) as usize;
         }
+        s
     }
 
     fn to_json(&self) -> Value {
@@ -529,7 +537,7 @@ impl Case for LoopScn {
         (n.div_ceil(t) * t * (s * 4 + 12)).clamp(16, 5000)
     }
     fn max_threads(&self) -> usize {
-        self.eff_threads()
+        self.eff_threads().max(self.prelude_threads)
     }
     fn run_config(&self, seed: u64, strategy: StrategySpec) -> RunConfig {
         LoopScn::run_config(self, seed, strategy, std::sync::Arc::new(crate::looprun::LoopCtx::new(self.clone())))
@@ -605,6 +613,12 @@ impl Case for LoopScn {
         if r.precision_reads > 0 {
             h.push("precision_measured_on_virtual_clock");
         }
+        if self.prelude_threads > 0 {
+            h.push("followed_an_earlier_benchmark_on_the_same_pool");
+            if self.prelude_threads > self.eff_threads() {
+                h.push("pool_larger_than_this_benchmark_needs");
+            }
+        }
         h
     }
     fn outcome_key(&self, _r: &RunResult, out: &LoopOut) -> u64 {
@@ -667,6 +681,7 @@ impl Case for LoopScn {
             _ => false,
         });
         push(&|s| std::mem::take(&mut s.spurious_parks).len() > 0);
+        push(&|s| std::mem::take(&mut s.prelude_threads) > 0);
         push(&|s| {
             if s.clock_faults.len() > 0 {
                 s.clock_faults.pop();
